@@ -165,6 +165,69 @@ func LoadFindings() ([]Finding, error) {
 	return out, sc.Err()
 }
 
+// MergeConfig folds the run of the same rules under another build
+// configuration into r: every obligation of the other run that is not
+// discharged and has no counterpart (rule, function, construct) in r is
+// added (so it is reported once); per-configuration totals go to the evidence.
+func (r *Report) MergeConfig(name string, o *Report) {
+	have := map[string]bool{}
+	for _, c := range r.Obls {
+		have[c.Rule+"|"+c.Function+"|"+c.Construct] = true
+	}
+	ok, bad, extra := 0, 0, 0
+	for _, c := range o.Obls {
+		k := c.Rule + "|" + c.Function + "|" + c.Construct
+		if c.Status == OK {
+			ok++
+			if !have[k] {
+				extra++
+				have[k] = true
+				c.How = "[" + name + " only] " + c.How
+				r.add(c)
+			}
+			continue
+		}
+		bad++
+		if !have[k] {
+			have[k] = true
+			c.How = "[" + name + "] " + c.How
+			r.add(c)
+		}
+	}
+	for _, id := range o.order {
+		st := o.rules[id]
+		if st.Instances < st.Floor {
+			r.Errorf("[%s] rule %s matched %d instances, below its floor of %d", name, id, st.Instances, st.Floor)
+		}
+	}
+	for _, e := range o.Errors {
+		r.Errorf("[%s] %s", name, e)
+	}
+	cfgs, _ := r.Extra["build_configs"].([]map[string]interface{})
+	cfgs = append(cfgs, map[string]interface{}{"config": name, "obligations": len(o.Obls), "discharged": ok, "not_discharged": bad, "obligations_only_in_this_config": extra})
+	r.Extra["build_configs"] = cfgs
+}
+
+// Clean reports whether every obligation is discharged or a listed known finding.
+func (r *Report) Clean() bool {
+	findings, _ := LoadFindings()
+	for _, o := range r.Obls {
+		if o.Status == OK {
+			continue
+		}
+		m := false
+		for _, f := range findings {
+			if o.Status == Violated && f.Status == "finding" && f.Property == r.Property && f.Rule == o.Rule && f.Function == o.Function && f.Construct == o.Construct {
+				m = true
+			}
+		}
+		if !m {
+			return false
+		}
+	}
+	return len(r.Errors) == 0
+}
+
 // Finish applies floors and known findings, writes evidence, prints the
 // protocol lines and returns the process exit code.
 func (r *Report) Finish(p *Prog, noEvidence bool) int {
